@@ -21,7 +21,9 @@ def parseInput (s : String) : Option (Cfg × List PartIn) :=
     | [ml, re, mr, ce, ae] => do
       let ml ← ml.toInt?
       let mr ← mr.toInt?
-      let ps ← rest.mapM parsePart
+      -- a trailing "@ <history>" segment says what the consumer went through before the judged call; the property holds
+      -- whenever partitions are assigned, so the model ignores it
+      let ps ← (rest.filter (fun seg => !(words seg).head?.any (· == "@"))).mapM parsePart
       pure (⟨ml, boolOf re, mr, boolOf ce, boolOf ae⟩, ps)
     | _ => none
   | _ => none
